@@ -376,7 +376,7 @@ pub(crate) mod verif {
     /// Walk the global node list (ungated reads).
     pub fn node_snapshot() -> Vec<NodeSnapshot> {
         let mut result = Vec::new();
-        let mut current = unsafe { LIST_HEAD.load(SeqCst).as_ref() };
+        let mut current = unsafe { LIST_HEAD.raw_load().as_ref() };
         while let Some(node) = current {
             let mut snap = NodeSnapshot {
                 addr: node as *const Node as usize,
